@@ -1,4 +1,5 @@
 import PersimVerif.Lemmas.PNormSup
+import PersimVerif.Lemmas.PNormStab
 import Mathlib.Analysis.SpecialFunctions.Pow.Real
 import Mathlib.Tactic.NormNum
 
@@ -542,7 +543,7 @@ example : ∀ l ∈ ([[(0, 0), (2, 0), (4, 0)], [(1, 0), (3, 0)]] : List (List (
 example : checkP (5/2 : ℝ) = .norm := (p_validation _).2.2.mpr (by norm_num)
 example : checkP (-1/2 : ℝ) = .reject := (p_validation _).1.mpr (Or.inr ⟨by norm_num, by norm_num⟩)
 
-/-! ### clauses that are *not* decided by a theorem here (kept visible; tested on the real code, [T]) -/
+/-! ### clause that is *not* decided by a theorem here (kept visible; tested on the real code, [T]) -/
 
 /-- Minkowski's inequality for the landscape norm: a property of the integral the theorems above identify
     the value with.  Not proved here — [T] (triangle law on triples of real landscapes). -/
@@ -552,19 +553,81 @@ def TriangleInequality : Prop :=
     (∀ k t, evalDepth h k t = evalDepth f k t + evalDepth g k t) →
     (pNormPow p h) ^ ((1 : ℝ) / p) ≤ (pNormPow p f) ^ ((1 : ℝ) / p) + (pNormPow p g) ^ ((1 : ℝ) / p)
 
-/-- Stability (stretch goal): landscapes of two diagrams differ pointwise by at most the cost of any
-    partial matching, hence the sup norm of the difference is at most the bottleneck distance.
-    Not proved here — [T] against `persim.bottleneck`. -/
-def LandscapeStability : Prop :=
-  ∀ (D D' : List (ℝ × ℝ)) (ε : ℝ), 0 ≤ ε →
-    (∃ (σ : List (Option (ℝ × ℝ) × Option (ℝ × ℝ))),
-      (σ.filterMap (·.1)).Perm D ∧ (σ.filterMap (·.2)).Perm D' ∧
-      ∀ q ∈ σ, match q with
-        | (some a, some b) => max |a.1 - b.1| |a.2 - b.2| ≤ ε
-        | (some a, none) => (a.2 - a.1) / 2 ≤ ε
-        | (none, some b) => (b.2 - b.1) / 2 ≤ ε
-        | (none, none) => True) →
-    ∀ k t, |landscape D k t - landscape D' k t| ≤ ε
+/-! ### stability of the landscape under a partial matching (the bottleneck clause) -/
+
+open PersimVerif.Spec in
+/-- **landscape_stability**: if some partial matching between the diagrams `D` and `D'` pairs points
+    within L∞ distance `ε` and sends the unpaired points of either side to the diagonal at cost `≤ ε`,
+    then the mathematical landscapes (`λ_k(t)` = k-th largest tent) differ by at most `ε` at every
+    depth `k` and every abscissa `t`.  (About `PL.landscape`, the function the exact class represents
+    by C03 and whose differences the arithmetic represents by C09 — not about the sweep itself.) -/
+theorem landscape_stability (D D' : List (ℝ × ℝ)) (ε : ℝ)
+    (p : PM (Fin D.length) (Fin D'.length))
+    (hp : p.MaxLE (fun i j => linf D[i] D'[j]) (fun i => diagInf D[i]) (fun j => diagInf D'[j]) ε)
+    (hD : ∀ q ∈ D, q.1 ≤ q.2) (hD' : ∀ q ∈ D', q.1 ≤ q.2) (k : ℕ) (t : ℝ) :
+    |landscape D k t - landscape D' k t| ≤ ε := by
+  have hsymm : p.symm.MaxLE (fun j i => linf D'[j] D[i]) (fun j => diagInf D'[j])
+      (fun i => diagInf D[i]) ε := by
+    obtain ⟨h0, hrow, hcol⟩ := hp
+    refine ⟨h0, ?_, ?_⟩
+    · intro j
+      unfold PM.rowCost PM.symm
+      simp only
+      cases hg : p.g j with
+      | none => exact hcol j hg
+      | some i =>
+        have hf : p.f i = some j := (p.fg i j).mpr hg
+        have := hrow i
+        unfold PM.rowCost at this
+        rw [hf] at this
+        simpa [linf, abs_sub_comm] using this
+    · intro i hi
+      have := hrow i
+      unfold PM.rowCost at this
+      have hi' : p.f i = none := hi
+      rw [hi'] at this
+      exact this
+  rw [abs_sub_le_iff]
+  constructor
+  · have := landscape_le_add D D' ε p hp hD k t; linarith
+  · have := landscape_le_add D' D ε p.symm hsymm hD' k t; linarith
+
+open PersimVerif.Spec in
+/-- hence the sup norm of the difference of the two landscapes never exceeds the bottleneck distance -/
+theorem landscape_sup_le_bottleneck (D D' : List (ℝ × ℝ)) (d : ℝ)
+    (hb : IsBottleneck (M := Fin D.length) (N := Fin D'.length)
+      (fun i j => linf D[i] D'[j]) (fun i => diagInf D[i]) (fun j => diagInf D'[j]) d)
+    (hD : ∀ q ∈ D, q.1 ≤ q.2) (hD' : ∀ q ∈ D', q.1 ≤ q.2) :
+    (⨆ kt : ℕ × ℝ, |landscape D kt.1 kt.2 - landscape D' kt.1 kt.2|) ≤ d := by
+  obtain ⟨p, hp⟩ := hb.attained
+  exact ciSup_le fun kt => landscape_stability D D' d p hp hD hD' kt.1 kt.2
+
+open PersimVerif.Spec in
+/-- non-vacuity: `[(0,4),(5,6)]` against `[(1,4)]`, first bars paired (cost 1), `(5,6)` to the diagonal (cost 1/2) -/
+example : ∃ p : PM (Fin ([(0, 4), (5, 6)] : List (ℝ × ℝ)).length) (Fin ([(1, 4)] : List (ℝ × ℝ)).length),
+    p.MaxLE (fun i j => linf ([(0, 4), (5, 6)] : List (ℝ × ℝ))[i] ([(1, 4)] : List (ℝ × ℝ))[j])
+      (fun i => diagInf ([(0, 4), (5, 6)] : List (ℝ × ℝ))[i]) (fun j => diagInf ([(1, 4)] : List (ℝ × ℝ))[j]) 1 := by
+  refine ⟨⟨fun i => if i.val = 0 then some ⟨0, by simp⟩ else none, fun _ => some ⟨0, by simp⟩, ?_⟩, ?_⟩
+  · intro i j
+    have hj1 : (j : ℕ) < 1 := j.isLt
+    have hj : j = ⟨0, by simp⟩ := Fin.ext (by show (j : ℕ) = 0; omega)
+    subst hj
+    constructor
+    · intro h
+      split_ifs at h with h0
+      · exact congrArg some (Fin.ext h0.symm)
+    · intro h
+      have h' : i = ⟨0, by simp⟩ := (Option.some.inj h).symm
+      subst h'
+      simp
+  · refine ⟨by norm_num, ?_, ?_⟩
+    · intro i
+      unfold PM.rowCost
+      match i with
+      | ⟨0, _⟩ => simp [linf]
+      | ⟨1, _⟩ => simp [diagInf]; norm_num
+    · intro j hj
+      simp at hj
 
 end
 end PersimVerif.C10
